@@ -271,7 +271,7 @@ func (a *Aggregate) aggregate(group *mapr.GroupSet, fields map[string]string) {
 	set := group.GetSet(groupKey)
 
 	var addedSample bool
-	for _, sc := range a.query.Select {
+	for _, sc := range a.query.Aggregations {
 		if val, ok := fields[sc.Field]; ok {
 			if err := set.Aggregate(sc.FieldStorage, sc.Operation, val, false); err != nil {
 				dlog.Server.Error(err)
